@@ -38,6 +38,8 @@ Template(kd, f, g) ==
     [] kd = "modeonly" -> << L("oldmode", 0, 0), L("newmode", 0, 0) >>
     [] kd = "modemod"  -> << L("oldmode", 0, 0), L("newmode", 0, 0), L("index", 0, 0), L("mmm", f, 0),
                              L("ppp", f, 0) >>
+    [] kd = "modebin"  -> << L("oldmode", 0, 0), L("newmode", 0, 0), L("index", 0, 0), L("binary", f, f) >>
+    [] kd = "renmode"  -> << L("oldmode", 0, 0), L("newmode", 0, 0), L("simil", 0, 0), L("renfrom", f, 0), L("rento", g, 0) >>
     [] kd = "bin"      -> << L("index", 0, 0), L("binary", f, f) >>
     [] kd = "binadd"   -> << L("newfile", 0, 0), L("index", 0, 0), L("binary", 0, f) >>
     [] kd = "cc"       -> << L("index", 0, 0), L("mmm", f, 0), L("ppp", f, 0) >>   \* diff --cc / --combined (merge)
@@ -48,9 +50,9 @@ Template(kd, f, g) ==
     [] kd = "subshort" -> << L("index", 0, 0), L("mmm", f, 0), L("ppp", f, 0), L("hh", 0, 0), L("subm", 0, 0), L("subp", 0, 0) >>
 
 HasHunks(kd)  == kd \in {"mod", "add", "del", "renmod", "modemod", "cc"}
-TwoPaths(kd)  == kd \in {"rename", "renmod", "copy"}
+TwoPaths(kd)  == kd \in {"rename", "renmod", "copy", "renmode"}
 AllKinds == {"mod", "add", "addempty", "del", "rename", "renmod", "copy", "modeonly", "modemod", "bin",
-             "binadd", "bare", "cc", "sublog", "subshort"}
+             "binadd", "bare", "cc", "sublog", "subshort", "modebin", "renmode"}
 
 BodyClasses == {"minus", "plus", "zero"}
 
